@@ -612,6 +612,7 @@ func check(prop, tier string, seed int64, replay string, budget time.Duration, w
 		}
 		json.Unmarshal(b, &mode)
 		if mode.Mode == "race" {
+			raceFocus = prop
 			key := mode.Rule + "@" + mode.Site
 			if raceReplay(key, mode.Seed, mode.Run, outDir, 10) {
 				fmt.Printf("replayed (race mode): %s\n", key)
@@ -830,7 +831,8 @@ func check(prop, tier string, seed int64, replay string, budget time.Duration, w
 
 	// Phase 3b: the auxiliary race-detector mode (C13 only).
 	var raceInfo map[string]interface{}
-	if prop == "C13" && os.Getenv("VERIF_SKIP_RACE") == "" && exit == 0 {
+	if (prop == "C13" || prop == "C07") && os.Getenv("VERIF_SKIP_RACE") == "" && exit == 0 {
+		raceFocus = prop
 		rb := budget / 2
 		if rb < 8*time.Second {
 			rb = 8 * time.Second
@@ -845,13 +847,12 @@ func check(prop, tier string, seed int64, replay string, budget time.Duration, w
 			keys = append(keys, r.Key)
 			again := raceReplay(r.Key, r.Seed, r.Run, outDir, 6)
 			os.MkdirAll(filepath.Join(artifactDir, "replays"), 0755)
-			rp := filepath.Join(artifactDir, "replays", fmt.Sprintf("C13-race-%d-%d.json", r.Seed, r.Run))
-			site := strings.TrimPrefix(strings.TrimPrefix(r.Key, "C13.race@"), "C13.race-mode-panic@")
-			rule := "C13.race"
-			if strings.HasPrefix(r.Key, "C13.race-mode-panic@") {
-				rule = "C13.race-mode-panic"
+			rp := filepath.Join(artifactDir, "replays", fmt.Sprintf("%s-race-%d-%d.json", prop, r.Seed, r.Run))
+			rule, site := r.Key, ""
+			if k := strings.Index(r.Key, "@"); k >= 0 {
+				rule, site = r.Key[:k], r.Key[k+1:]
 			}
-			rec := map[string]interface{}{"property": "C13", "mode": "race", "seed": r.Seed, "run": r.Run, "rule": rule, "site": site,
+			rec := map[string]interface{}{"property": prop, "mode": "race", "focus": raceFocus, "seed": r.Seed, "run": r.Run, "rule": rule, "site": site,
 				"detail": "auxiliary free-running mode under the Go race detector (not exactly replayable; replay re-runs the workload up to 10 times and looks for the same pair of access sites)", "report": r.Text, "reproduced_on_rerun": again}
 			b, _ := json.MarshalIndent(rec, "", " ")
 			os.WriteFile(rp, b, 0644)
@@ -946,6 +947,16 @@ func topRepoFunc(stack string) (string, bool) {
 
 func parseRaces(out string, seed int64, run int) []raceReport {
 	var reps []raceReport
+	for _, l := range strings.Split(out, "\n") {
+		if strings.HasPrefix(l, "RACE-MODE-VIOLATION ") {
+			f := strings.SplitN(strings.TrimPrefix(l, "RACE-MODE-VIOLATION "), " ", 2)
+			detail := ""
+			if len(f) > 1 {
+				detail = f[1]
+			}
+			reps = append(reps, raceReport{Key: f[0], Text: detail, Seed: seed, Run: run, Repo: true})
+		}
+	}
 	for _, blk := range strings.Split(out, "==================") {
 		if !strings.Contains(blk, "WARNING: DATA RACE") {
 			continue
@@ -970,9 +981,11 @@ func parseRaces(out string, seed int64, run int) []raceReport {
 	return reps
 }
 
+var raceFocus string
+
 func runRace(bin string, seed int64, from, runs int, outDir string, timeout time.Duration) (string, int) {
 	cmd := exec.Command(bin, "-test.run", "^TestRace$", "-test.timeout", "0")
-	cmd.Env = append(os.Environ(), "VERIF_SEED="+strconv.FormatInt(seed, 10), "VERIF_RUN_FROM="+strconv.Itoa(from), "VERIF_RACE_RUNS="+strconv.Itoa(runs),
+	cmd.Env = append(os.Environ(), "VERIF_RACE_FOCUS="+raceFocus, "VERIF_SEED="+strconv.FormatInt(seed, 10), "VERIF_RUN_FROM="+strconv.Itoa(from), "VERIF_RACE_RUNS="+strconv.Itoa(runs),
 		"VERIF_SCRATCH="+filepath.Join(outDir, "scratch"), "GORACE=halt_on_error=0")
 	var buf bytes.Buffer
 	cmd.Stdout = &buf
@@ -1034,7 +1047,7 @@ func racePhase(seed int64, budget time.Duration, workers int, outDir string) (re
 				}
 				if code != 0 && len(rs) == 0 && trouble == "" {
 					if site, ok := panicSite(out); ok && !lifetimePanic(out) {
-						k := "C13.race-mode-panic@" + site
+						k := raceFocus + ".race-mode-panic@" + site
 						if !seen[k] {
 							seen[k] = true
 							reps = append(reps, raceReport{Key: k, Text: lastN(out, 4000), Seed: seed, Run: from + done, Repo: true})
@@ -1066,8 +1079,8 @@ func raceReplay(key string, seed int64, run int, outDir string, n int) bool {
 				return true
 			}
 		}
-		if strings.HasPrefix(key, "C13.race-mode-panic@") {
-			if site, ok := panicSite(out); ok && "C13.race-mode-panic@"+site == key {
+		if strings.Contains(key, ".race-mode-panic@") {
+			if site, ok := panicSite(out); ok && strings.HasSuffix(key, ".race-mode-panic@"+site) {
 				return true
 			}
 		}
